@@ -13,6 +13,8 @@ CONSTANTS
   SnVals = {1, 10, 100}
   SubsetSizes = {}
   ExtraSubsets = {{0}, {3}, {4}, {1, 3}, {2, 4}}
+  Labels = {"rot", "sparse"}
+  LabelBuses = {{0, 1, 2, 3, 4}, {2, 4}}
 INVARIANT TypeOK
 INVARIANT PairWellFormed
 INVARIANT ReqWellFormed
@@ -20,3 +22,4 @@ INVARIANT CFactorTable
 INVARIANT ConservativeCS
 INVARIANT OnlySupported
 INVARIANT RowsAreFaultedBuses
+INVARIANT LabelsWellFormed
